@@ -50,7 +50,7 @@ def cases(tier, seed):
     # composite helpers on the public reduction path (labelled pandas contract model, as in C01's assembly family)
     for labels, st in (([0, 1], "categorical"), ([1, 0], "appearance"), (["b", "a"], "appearance")):
         for mk in ("none", "bool_sym"):
-            for comp in ("agg_list", "ratio", "density", "density_size"):
+            for comp in ("agg_list", "ratio", "density", "density_size", "margin_sum", "margin_mean"):
                 c = {"kind": "composite", "comp": comp, "N": 3, "G": 2, "labels": labels, "state": st, "mask": {"kind": mk}, "dtype": "float64", "func": "sum",
                      "observed_only": True}
                 c["name"] = f"GroupBy.{comp}/N=3,G=2/labels={labels}({st})/mask={mk}"
@@ -296,6 +296,10 @@ def run_composite(E, case):
                 return "ok", gb.ratio(arrs["values"], A(d["values2"], dt).tag("input:values"), mask=arrs["mask"])
             if comp == "density":
                 return "ok", gb.density(arrs["values"], mask=arrs["mask"])
+            if comp == "margin_sum":
+                return "ok", gb.sum(arrs["values"], mask=arrs["mask"], margins=True)
+            if comp == "margin_mean":
+                return "ok", gb.mean(arrs["values"], mask=arrs["mask"], margins=True)
             return "ok", gb.density(mask=arrs["mask"])
         except (Unsupported, OutsideModel):
             raise
@@ -353,6 +357,13 @@ def run_composite(E, case):
                     for lab, cond in R.spec_bads(sub, d, res, None):
                         if f"[g={g}]" in lab:
                             bads.append((f"agg list column {lab} equals the individual call", b_and(pcz, cond)))
+                elif name in ("margin_sum", "margin_mean"):
+                    sub = dict(case, func=name.split("_")[1])
+                    res = [0] * G
+                    res[g] = r
+                    for lab, cond in R.spec_bads(sub, d, res, None):
+                        if f"[g={g}]" in lab:
+                            bads.append((f"{name}: ordinary row {lab} unchanged by the margin", b_and(pcz, cond)))
                 elif name == "ratio":
                     exp = fdiv(gsum(d["values"], g), gsum(d["values2"], g))
                     bads.append((f"ratio[{labels[g]!r}] == sum(values1) / sum(values2)", b_and(pcz, b_not(R.approx_same(r, exp)))))
@@ -363,6 +374,21 @@ def run_composite(E, case):
                     exp = fdiv(100 * gsum(vals, g, size), tot)
                     bads.append((f"density[{labels[g]!r}] == 100 * group total / grand total", b_and(pcz, b_not(R.approx_same(r, exp)))))
             extra = [lab for lab in got if not any(lab == l2 and type(lab) is type(l2) for l2 in labels)]
+            if name in ("margin_sum", "margin_mean"):
+                # the single-key margin: one extra row 'All' = the same aggregation over ALL selected rows (mean: total sum / total count)
+                if extra != ["All"]:
+                    bads.append((f"{name}: exactly one margin row 'All' expected, extra labels {extra!r}", pcz))
+                else:
+                    r_all = cells[got.index("All")]
+                    vals = d["values"]
+                    tot = total([gsum(vals, h) for h in range(G)], 0)
+                    if name == "margin_sum":
+                        exp_all = tot
+                    else:
+                        cnt = total([total([ite(b_and(m, b_not(is_null_val(v, dt))), 1, 0) for m, v in zip(member[h], vals)], 0) for h in range(G)], 0)
+                        exp_all = fdiv(tot, cnt)
+                    bads.append((f"{name}: the 'All' row equals the aggregation over all selected rows", b_and(pcz, b_not(R.approx_same(r_all, exp_all)))))
+                extra = []
             if extra:
                 bads.append((f"{name}: unexpected labels {extra!r}", pcz))
     dec = decide(inp, bads, merged)
@@ -413,6 +439,12 @@ def replay_composite(case, conc):
                 out = gb.ratio(v, w, mask=mask)
             elif comp == "density":
                 out = gb.density(v, mask=mask)
+            elif comp in ("margin_sum", "margin_mean"):
+                out = gb.sum(v, mask=mask, margins=True) if comp == "margin_sum" else gb.mean(v, mask=mask, margins=True)
+                allrows = [i for i in range(N) if sel[i] and v[i] == v[i]]
+                exp_all = float(real_np.sum(v[allrows])) if comp == "margin_sum" else (float(real_np.mean(v[allrows])) if allrows else float("nan"))
+                if "All" not in out.index or not approx_same(float(out.loc["All"]), exp_all):
+                    problems.append(f"'All' row {out.get('All')!r}, expected {exp_all!r}")
             else:
                 out = gb.density(mask=mask)
             for g in range(G):
@@ -424,7 +456,10 @@ def replay_composite(case, conc):
                 if not rows:
                     continue
                 got = float(out.loc[listed[0]])
-                if comp == "ratio":
+                if comp in ("margin_sum", "margin_mean"):
+                    ok = [x for x in v[rows] if x == x]
+                    exp = (float(sum(ok)) if comp == "margin_sum" else (float(sum(ok)) / len(ok) if ok else float("nan")))
+                elif comp == "ratio":
                     exp = float(real_np.nansum(v[rows])) / float(real_np.nansum(w[rows])) if float(real_np.nansum(w[rows])) != 0 else None
                 elif comp == "density":
                     tot = float(real_np.nansum(v[[i for i in range(N) if sel[i]]]))
